@@ -357,7 +357,7 @@ def run_link_property(ctx, pid, gen_cases, oracle, classify, rule, nontrivial, a
         verdict.add(key, (w if (r_small or {}).get("hang") else oracle(small, r_small)) or w,
                     {"kind": "failing-input", "case": small, "observed": r_small, "oracle": w,
                      "model_predicts": model_trace(ctx, small, pid.lower() + "_trace") if model_ok else None})
-    if not failing and not side:
+    if not verdict.findings_with_input():       # nothing found that is not a listed known finding
         if not proof["build_ok"]:
             verdict.add("proof-broken",
                         "proof obligation of %s no longer checks (%s) and no failing script was found among %d"
